@@ -397,3 +397,31 @@ def parse_oracle(req):
         r["same"] = r["real"] == r["expected"] and not r["real"].startswith(("SyntaxError", "ValueError"))
         out.append(r)
     return out
+
+
+@register("module_vs_evaluator")
+def module_vs_evaluator(req):
+    """C14 replay: the same program under different experiment ids: exec of generate_code text vs ExperimentEvaluator"""
+    from pyab_experiment.experiment_evaluator import ExperimentEvaluator
+    from pyab_experiment.utils.wraper_functions import generate_code
+    out = []
+    for name in req["ids"]:
+        text = 'def %s { splitters: uid return "A" weighted 1, "B" weighted 1 }' % name
+        row = {"id": name, "text": text}
+        try:
+            ev = quiet(ExperimentEvaluator, text)
+            a = call_outcome(ev, {"uid": "u1"})
+            row["evaluator"] = a[0] if a[0] == "raise" else dec_value(a[1])
+        except BaseException as e:   # noqa
+            row["evaluator"] = "compile:%s" % type(e).__name__
+        for expose in (False, True):
+            try:
+                ns = {}
+                exec(compile(quiet(generate_code, text, expose), "<generated>", "exec"), ns)   # noqa: S102
+                b = call_outcome(ns[name], {"uid": "u1"})
+                row["module_%s" % ("exposed" if expose else "nested")] = b[1] if b[0] == "raise" else dec_value(b[1])
+            except BaseException as e:   # noqa
+                row["module_%s" % ("exposed" if expose else "nested")] = "compile:%s" % type(e).__name__
+        row["same"] = row.get("evaluator") == row.get("module_nested") == row.get("module_exposed")
+        out.append(row)
+    return out
